@@ -81,7 +81,7 @@ EXPECTED_PROBES = ("gen_switch", "gen_close", "load_between_next", "direct_parse
                    "headers_only", "shared_definition_2plus", "socket_source", "file_source", "two_definitions",
                    "source_fault_eio", "source_fault_rst", "source_fault_stall_timeout", "direct_parse_same_raw_object", "segment_group",
                    "unfinished_segment_group", "packet_inside_open_group", "duplicate_unit", "duplicate_unit_across_generators",
-                   "stuck_counter")
+                   "stuck_counter", "non_default_root_container", "long_stream")
 # (probe warnings_differ_from_alone is expected to stay at 0 on the unchanged tree; it is informational)
 
 _packets = factory.import_library()
@@ -92,7 +92,7 @@ from space_packet_parser.exceptions import UnrecognizedPacketTypeError  # noqa: 
 
 
 _NOTHING = object()
-CAT_LETTER = {"leaf": "R", "long": "L", "short": "S", "unknown": "U", "ambiguous": "A", "dead_sub": "D", "group": "G", "open_group": "g"}
+CAT_LETTER = {"leaf": "R", "long": "L", "short": "S", "unknown": "U", "ambiguous": "A", "dead_sub": "D", "group": "G", "open_group": "g", "foreign_group": "f"}
 
 
 def load(xml, rd):
@@ -216,11 +216,20 @@ def run(ch, render=False):
             opts["combine_segmented_packets"] = True
             if ch.chance(1, 2, "o_sh"):
                 opts["secondary_header_bytes"] = ch.pick((2, 4), "o_shv")
-        if ch.chance(1, 6, "o_root"):
-            opts["root_container_name"] = "CCSDSPacket"
+        if ch.chance(1, 4, "o_root"):
+            # an explicit root container: the default one, or (if the document has it) another header-bearing container
+            opts["root_container_name"] = doc.alt_root if (doc.alt_root and ch.chance(2, 3, "o_root_alt")) else "CCSDSPacket"
+            if opts["root_container_name"] != "CCSDSPacket":
+                w.probe("non_default_root_container")
         k = ch.weighted([(6, 0), (1, 4), (1, 1)], "k")
         rs = ch.pick((None, 7, 1, 64, 4096), "read_size")
         n_pk = 1 + ch.draw(ch.pick((4, 8, 25), "npk_max"), "n_pk")
+        long_cats = None
+        if gi == 0 and ch.chance(1, 20, "long_stream"):
+            # a long stream of one or two categories: state that only matters after dozens or hundreds of packets
+            n_pk = 60 + ch.draw(540, "n_long")
+            long_cats = [ch.pick(("long", "leaf", "unknown", "short"), "long_cat") for _ in range(1 + ch.draw(2, "long_ncat"))]
+            w.probe("long_stream")
         # candidates are only BUILT here; nothing is parsed in this process before the interleaving starts (process-wide
         # state that only grows would otherwise be saturated beforehand and hide itself): classification and the
         # alone-expectations are computed in children forked from this still pristine process
@@ -228,6 +237,8 @@ def run(ch, render=False):
         for pi in range(n_pk):
             cat = ch.weighted([(8, "leaf"), (2, "unknown"), (2, "long"), (1, "short"), (1, "ambiguous"), (1, "dead_sub")]
                               + ([(6, "group"), (1, "open_group")] if opts.get("combine_segmented_packets") else []), "cat")
+            if long_cats is not None:
+                cat = long_cats[ch.draw(len(long_cats), "long_pick")]
             sub = ch.draw(1 << 16, "sub")
             cnt = (gi * 1000 + pi) % 16384
             leaf = doc.leaves[ch.draw(len(doc.leaves), "leaf")]
@@ -251,8 +262,9 @@ def run(ch, render=False):
                     w.probe("packet_inside_open_group")
                 p = make_group(whole, [ch.draw(1 << 12, "seg_cut") for _ in range(1 + ch.draw(3, "nseg"))],
                                opts.get("secondary_header_bytes", 0), complete=(cat == "group"), inter=inter)
+                base = whole          # kept: the unsegmented packet this group was cut from
                 if p is None:
-                    p, cat = whole, "leaf"
+                    p, cat, base = whole, "leaf", None
             elif cat == "leaf":
                 p = xf.encode_packet(doc, leaf["chain"], leaf["apid"], leaf["fixed"], sub, count=cnt)
             elif cat == "unknown":
@@ -288,6 +300,10 @@ def run(ch, render=False):
                 pool = [c_ for g_ in gens if g_["di"] == di for c_ in g_["cands"]]
                 if pool:
                     cat, p, base, fallback = pool[ch.draw(len(pool), "dup_other")]
+                    if cat in ("group", "open_group"):
+                        # built for the other generator's options (combining or not, its secondary-header length): here it
+                        # is just some packets; nothing is known about it by construction
+                        cat, base = "foreign_group", None
                     w.probe("duplicate_unit_across_generators")
             elif dup == "same_count" and cands and isinstance(p, bytes) and isinstance(cands[-1][1], bytes):
                 prev_p = cands[-1][1]
@@ -320,7 +336,7 @@ def run(ch, render=False):
                     if not exact:
                         cat = "leaf"
                 copts = {"yield_unrecognized_packet_errors": True}
-                if not isinstance(p, bytes):
+                if not isinstance(p, bytes) and cat != "foreign_group":
                     copts.update({o: v for o, v in g["opts"].items() if o in ("combine_segmented_packets", "secondary_header_bytes")})
                 r, e = alone(oracle_a[g["di"]], p, 0, copts)
                 if e is not None:
@@ -329,9 +345,16 @@ def run(ch, render=False):
                     r, e = alone(oracle_a[g["di"]], p, 0, {"yield_unrecognized_packet_errors": True})
                     if e is not None:
                         continue
+                whole_vals = None
+                if cat == "group" and base is not None:
+                    # by construction: the reassembled group carries exactly the data field of the unsegmented packet it
+                    # was cut from, so - if that packet alone is consumed exactly - the group must yield its user data
+                    rw, ew = alone(oracle_a[g["di"]], base, 0, {"yield_unrecognized_packet_errors": True})
+                    if ew is None and len(rw[0]) == 1 and rw[0][0][0] == "PKT" and rw[0][0][3] == len(base) * 8:
+                        whole_vals = rw[0][0][1][7:]
                 pk_.append(p)
                 ct_.append(cat)
-                ad_.append(r[0])            # what parsing this packet alone gives (default options, reporting on)
+                ad_.append(r[0] if whole_vals is None else ("GROUP_OF", whole_vals))   # alone result (default options, reporting on)
             res.append((pk_, ct_, ad_))
         return res, rep_
     cls, replaced = in_pristine_child(classify)
@@ -442,8 +465,8 @@ def run(ch, render=False):
                 if not live:
                     break
                 steps += 1
-                if steps > 400:
-                    err = ("step_cap", "schedule exceeded 400 steps", None)
+                if steps > 400 + 3 * sum(len(g_["pkts"]) for g_ in gens):
+                    err = ("step_cap", "schedule exceeded its step cap", None)
                     break
                 act = ch.weighted([(12, "next")] + [(1, f) for f in ("gen_close", "load_between_next", "direct_parse_between")
                                                     if enabled[f]], "act")
@@ -611,7 +634,8 @@ def run(ch, render=False):
                     n_it = 0 if e[0] == "RAISES" else len(e[0])
                     mine = got[pos:pos + n_it]
                     pos += n_it
-                    unrec = (cat in ("ambiguous", "dead_sub")) or (cat == "unknown" and doc.root_abstract)
+                    default_root = g["opts"].get("root_container_name", "CCSDSPacket") == "CCSDSPacket"
+                    unrec = default_root and ((cat in ("ambiguous", "dead_sub")) or (cat == "unknown" and doc.root_abstract))
                     if unrec:
                         if g["opts"].get("yield_unrecognized_packet_errors"):
                             hv = factory.header_tuple(p)
@@ -626,7 +650,15 @@ def run(ch, render=False):
                             out.fail("unrecognized_yielded", f"{describe(gi)}: packet {pi} ({cat}) must be skipped silently; got "
                                                              f"{str(mine)[:200]}")
                             break
-                    elif cat == "long" and g["opts"].get("parse_bad_pkts") is False and mine:
+                    elif cat == "group" and default_root and g["alone_default"][pi][0] == "GROUP_OF":
+                        want = g["alone_default"][pi][1]
+                        if not any(it_[0] == "PKT" and it_[1][7:] == want for it_ in mine):
+                            out.fail("complete_group_not_yielded",
+                                     f"{describe(gi)}: unit {pi} is a complete in-sequence segment group cut from a packet that is "
+                                     f"consumed exactly when sent unsegmented; its reassembly must be yielded with the same user "
+                                     f"data ({len(want)} fields); got {str(mine)[:200]}")
+                            break
+                    elif cat == "long" and default_root and g["opts"].get("parse_bad_pkts") is False and mine:
                         out.fail("bad_length_packet_yielded", f"{describe(gi)}: over-long packet {pi} must be withheld with "
                                                               f"parse_bad_pkts=False; got {str(mine)[:200]}")
                         break
